@@ -10,7 +10,6 @@ func init() { register("C16", propC16) }
 
 func propC16(c *Ctx) {
 	c.Explanation = "Model equivalence with a plain byte string over operation histories is behavioural and not decided. Decided (for all counts/lengths, including negative, zero and beyond the size): (V1) View.CapLength re-slices with a three-index expression whose cap equals its length, so a capped view cannot be re-extended; View.TrimFront drops exactly count bytes; (V2) the size field moves in step with the chunks in every mutator of VectorisedView: the complete exact-guard site tables of TrimFront (partial trim of the first chunk: size -= count and the chunk loses count bytes; otherwise the whole first chunk goes and count shrinks by its length), RemoveFirst (size -= len(first chunk), chunk list loses its head; no-op when empty) and CapLength (negative lengths are 0, longer-than-size is a no-op, size = length, the chunk list is cut after the chunk where the length is reached and that chunk is capped to the remainder); (V3) Clone copies the chunk list into the caller's buffer re-sliced to zero length - the clone never shares the original's list of chunks - and keeps the size; First is views[0] or nil; ToView concatenates all chunks in order into a fresh slice; (V4) none of these functions can index or slice out of range for any argument (interval + linear-fact analysis; requirements on callers such as count <= len are discharged at the call sites inside the package and, for the inbound path, in C07); (V5) Prependable.Prepend returns nil unless size <= usedIdx, otherwise moves usedIdx down by size and returns exactly size bytes with cap = len. (V6) the one-line accessors and constructors return exactly the reviewed expressions (UsedLength = len(buf) - usedIdx, ...). View.CapLength reslices unconditionally (V1). (V7) no integer of package buffer is converted to a narrower integer type (closed world, positive control on the header codecs). NOT decided: equivalence with the byte-string model over all operation sequences and chunkings."
-	bv := "(*buffer.VectorisedView)."
 	c.NoNewNarrowing(c.Rule("V7", "K8 narrowing (closed world, reviewed table)", "no length, offset or size of package buffer is converted to a narrower integer type", 2), []string{"/pkg/buffer"}, nil)
 	v1 := c.Rule("V1", "SSA shape", "View.CapLength is a three-index slice with cap == len", 2)
 	if fn := c.Fn(v1, "(*buffer.View).CapLength"); fn != nil {
@@ -36,25 +35,7 @@ func propC16(c *Ctx) {
 	}
 
 	v2 := c.Rule("V2", "K7 exact-guard site tables", "size moves with the chunks", 10)
-	if fn := c.Fn(v2, bv+"TrimFront"); fn != nil {
-		cnt := "phi{$1 | (loop - builtin:len($0.views[0]))}"
-		loop := []string{"!(0 == builtin:len($0.views))", "!(" + cnt + " < 1)"}
-		part := append(append([]string{}, loop...), "("+cnt+" < builtin:len($0.views[0]))")
-		whole := append(append([]string{}, loop...), "!("+cnt+" < builtin:len($0.views[0]))")
-		c.CheckSites(v2, fn, []SiteSpec{
-			{Kind: "store", Target: "buffer.VectorisedView.size", Args: []string{"$0", "($0.size - " + cnt + ")"}, Guards: part, Exact: true, N: 1, Why: "partial trim inside the first chunk: size shrinks by the remaining count"},
-			{Kind: "call", Target: "(*buffer.View).TrimFront", Args: []string{"&$0.views[0]", cnt}, Guards: part, Exact: true, N: 1, Why: "... and the first chunk loses the same number of bytes"},
-			{Kind: "call", Target: bv + "RemoveFirst", Args: []string{"$0"}, Guards: whole, Exact: true, N: 1, Why: "otherwise the whole first chunk is removed and the count shrinks by its length (the phi)"},
-		})
-	}
-	if fn := c.Fn(v2, bv+"RemoveFirst"); fn != nil {
-		ne := []string{"!(0 == builtin:len($0.views))"}
-		c.CheckSites(v2, fn, []SiteSpec{
-			{Kind: "store", Target: "buffer.VectorisedView.size", Args: []string{"$0", "($0.size - builtin:len($0.views[0]))"}, Guards: ne, Exact: true, N: 1, Why: "size shrinks by the removed chunk's length"},
-			{Kind: "store", Target: "buffer.VectorisedView.views", Args: []string{"$0", "$0.views[1:]"}, Guards: ne, Exact: true, N: 1, Why: "the chunk list loses its head"},
-		})
-		c.Ordered(v2, fn, []string{"size update", "list update"}, []func(Site) bool{isStore("buffer.VectorisedView.size"), isStore("buffer.VectorisedView.views")})
-	}
+	vvTrimFrontRule(c, v2)
 	vvCapLengthRule(c, v2)
 
 	v3 := c.Rule("V3", "K5 alias / site tables", "Clone copies the chunk list; First/ToView/constructors", 6)
@@ -159,5 +140,33 @@ func vvCapLengthRule(c *Ctx, v2 string) {
 			{Kind: "call", Target: "(*buffer.View).CapLength", Args: []string{"&$0.views[" + i + "]", rem}, Guards: append(append([]string{}, in...), "!(0 == "+rem+")"), Exact: true, N: 1, Why: "length reached inside a chunk: that chunk is capped to the remainder"},
 			{Kind: "store", Target: "buffer.VectorisedView.views", Args: []string{"$0", "$0.views[:(" + i + " + 1)]"}, Guards: append(append([]string{}, in...), "!(0 == "+rem+")"), Exact: true, N: 1, Why: "... and the list is cut after it"},
 		})
+	}
+}
+
+// vvTrimFrontRule: VectorisedView.TrimFront removes whole chunks from the front
+// while the remaining count covers them (the count shrinks by THAT chunk's
+// length) and trims the rest inside the then-first chunk; RemoveFirst moves the
+// size with the chunk list. Shared by C16 (V2) and C08 (the reassembly loop
+// cuts the overlapping front of a fragment with it).
+func vvTrimFrontRule(c *Ctx, v2 string) {
+	bv := "(*buffer.VectorisedView)."
+	if fn := c.Fn(v2, bv+"TrimFront"); fn != nil {
+		cnt := "phi{$1 | (loop - builtin:len($0.views[0]))}"
+		loop := []string{"!(0 == builtin:len($0.views))", "!(" + cnt + " < 1)"}
+		part := append(append([]string{}, loop...), "("+cnt+" < builtin:len($0.views[0]))")
+		whole := append(append([]string{}, loop...), "!("+cnt+" < builtin:len($0.views[0]))")
+		c.CheckSites(v2, fn, []SiteSpec{
+			{Kind: "store", Target: "buffer.VectorisedView.size", Args: []string{"$0", "($0.size - " + cnt + ")"}, Guards: part, Exact: true, N: 1, Why: "partial trim inside the first chunk: size shrinks by the remaining count"},
+			{Kind: "call", Target: "(*buffer.View).TrimFront", Args: []string{"&$0.views[0]", cnt}, Guards: part, Exact: true, N: 1, Why: "... and the first chunk loses the same number of bytes"},
+			{Kind: "call", Target: bv + "RemoveFirst", Args: []string{"$0"}, Guards: whole, Exact: true, N: 1, Why: "otherwise the whole first chunk is removed and the count shrinks by its length (the phi)"},
+		})
+	}
+	if fn := c.Fn(v2, bv+"RemoveFirst"); fn != nil {
+		ne := []string{"!(0 == builtin:len($0.views))"}
+		c.CheckSites(v2, fn, []SiteSpec{
+			{Kind: "store", Target: "buffer.VectorisedView.size", Args: []string{"$0", "($0.size - builtin:len($0.views[0]))"}, Guards: ne, Exact: true, N: 1, Why: "size shrinks by the removed chunk's length"},
+			{Kind: "store", Target: "buffer.VectorisedView.views", Args: []string{"$0", "$0.views[1:]"}, Guards: ne, Exact: true, N: 1, Why: "the chunk list loses its head"},
+		})
+		c.Ordered(v2, fn, []string{"size update", "list update"}, []func(Site) bool{isStore("buffer.VectorisedView.size"), isStore("buffer.VectorisedView.views")})
 	}
 }
